@@ -62,6 +62,13 @@ class Unit:
     object_bits: int = 12
     no_dfcc: bool = False           # plain harness (no contract instrumentation)
     known_ok_desc: list = field(default_factory=list)
+    only_re: str = ""               # if set: only obligations whose "<id> <description>" matches are kept (others are data-abstraction noise, see unit note)
+    desc_by_line: dict = field(default_factory=dict)   # {"<file basename>:<line>": description} for contract clauses generated one per line
+    stub_builtins: bool = False     # also give libc string/heap functions nondet bodies (data fully abstracted)
+    stubbed_contracts: list = field(default_factory=list)  # callees replaced by a generated contract stub (reporting)
+    internal_is_property: bool = False  # loop invariants generated from the property itself count as property-level (E2)
+    link_objs: list = field(default_factory=list)      # [(goto binary, [function bodies to drop from it first])] linked in after remove_bodies
+    prop_filter: dict = field(default_factory=dict)    # {property id: regex}: which obligations of this unit belong to which property
 
 
 @dataclass
@@ -92,6 +99,7 @@ class UnitResult:
     assumed_contracts: list = field(default_factory=list)
     trace: Optional[dict] = None
     log_tail: str = ""
+    ignored: int = 0                # obligations dropped by Unit.only_re (reported in the evidence)
 
 
 INTERNAL_RE = re.compile(r"\.(loop_invariant_base|loop_invariant_step|loop_decreases|loop_assigns|loop_step_unwinding|"
@@ -215,7 +223,7 @@ def undefined_functions(gb):
     fns = []
     for l in out.splitlines():
         l = l.strip()
-        if not l or " " in l or l.startswith("Reading") or l.startswith("__CPROVER"):
+        if not l or " " in l or "::" in l or l.startswith("Reading") or l.startswith("__CPROVER"):
             continue
         fns.append(l)
     return fns
@@ -240,7 +248,7 @@ def build(u: Unit, r: UnitResult, d: str, cover: bool):
     gb0, gb1, gb2 = os.path.join(d, "a%s.gb" % sfx), os.path.join(d, "b%s.gb" % sfx), os.path.join(d, "c%s.gb" % sfx)
     # 1. compile the wrapper TU (which includes the real source from /repo's working tree)
     cmd = ["goto-cc", "--function", u.entry] + base_cflags() + ["-D" + x for x in u.defines] + \
-          (["-DVP_COVER_BUILD"] if cover else []) + [src] + \
+[src] + \
           [s if os.path.isabs(s) else os.path.join(VERIF, s) for s in u.extra_srcs] + ["-o", gb0]
     rc, _ = run(cmd, os.path.join(d, "cc%s.log" % sfx), timeout=120)
     if rc != 0:
@@ -258,8 +266,26 @@ def build(u: Unit, r: UnitResult, d: str, cover: bool):
             r.status, r.reason, r.log_tail = "error", "remove-function-body failed", tail(os.path.join(d, "rm.log"))
             return None
         cur = gb1
+    # 2b. link pre-compiled contract-stub binaries (generated engines)
+    for k, (obj, drop) in enumerate(u.link_objs):
+        o2 = obj
+        if drop:
+            o2 = os.path.join(d, "l%d%s.gb" % (k, sfx))
+            cmd = ["goto-instrument"]
+            for f in drop:
+                cmd += ["--remove-function-body", f]
+            rc, _ = run(cmd + [obj, o2], os.path.join(d, "rml.log"), timeout=120)
+            if rc != 0:
+                r.status, r.reason, r.log_tail = "error", "remove-function-body (stub binary) failed", tail(os.path.join(d, "rml.log"))
+                return None
+        nxt = os.path.join(d, "k%d%s.gb" % (k, sfx))
+        rc, _ = run(["goto-cc", "--function", u.entry, cur, o2, "-o", nxt], os.path.join(d, "link.log"), timeout=120)
+        if rc != 0:
+            r.status, r.reason, r.log_tail = "error", "goto-cc link failed", tail(os.path.join(d, "link.log"))
+            return None
+        cur = nxt
     # 3. never leave a body-less callee (DFCC would make everything after it unreachable)
-    undef = [f for f in undefined_functions(cur) if f not in CPROVER_BUILTINS and f not in u.keep_undefined
+    undef = [f for f in undefined_functions(cur) if (u.stub_builtins or f not in CPROVER_BUILTINS) and f not in u.keep_undefined
              and f not in u.replace and not f.startswith("__CPROVER") and not f.startswith("__builtin_")]
     if undef:
         rx = "^(" + "|".join(re.escape(f) for f in undef) + ")$"
@@ -269,7 +295,11 @@ def build(u: Unit, r: UnitResult, d: str, cover: bool):
         if rc != 0:
             r.status, r.reason, r.log_tail = "error", "generate-function-body failed", tail(os.path.join(d, "gen.log"))
             return None
-        cur = nxt
+        # normalisation pass: re-reading and re-writing the binary avoids a goto-instrument 6.11 crash
+        # (goto_inline parameter_assignments "Unreachable") when DFCC inlines freshly generated bodies
+        nx2 = os.path.join(d, "n%s.gb" % sfx)
+        rc, _ = run(["goto-instrument", nxt, nx2], os.path.join(d, "norm.log"), timeout=120)
+        cur = nx2 if rc == 0 else nxt
         r.stubs_generated = undef
     # 4. contract instrumentation
     if not u.no_dfcc:
@@ -321,10 +351,35 @@ def run_unit(u: Unit, want_trace=True) -> UnitResult:
     r.cmd = " ".join(cb)
     r.backend = u.solver or "minisat (cbmc default SAT)"
     log = os.path.join(d, "cbmc.json")
+    if u.only_re:
+        # check only the obligations this unit is about and slice the formula to their cone of influence
+        rc0, out = run_out(cb + ["--show-properties"], timeout=120, mem_gb=u.mem_gb)
+        sel = []
+        try:
+            for o in json.loads(out[out.index("["):]):
+                for pr in o.get("properties", []) if isinstance(o, dict) else []:
+                    if re.search(u.only_re, pr["name"] + " " + pr.get("description", "")) or pr.get("description", "").startswith("VP-REACH"):
+                        sel.append(pr["name"])
+        except Exception as e:
+            r.status, r.reason = "error", "cannot list properties: %s" % e
+            return r
+        r.ignored = -1
+        for nm in sel:
+            cb += ["--property", nm]
+        cb += ["--slice-formula"]
+        r.cmd = " ".join(cb[:12]) + " ... (%d selected properties) --slice-formula" % len(sel)
     rc, r.t_solve = run(cb, log, timeout=u.timeout, mem_gb=u.mem_gb)
     if rc == 124:
         r.status, r.reason = "undecided", "solver timeout after %ds" % u.timeout
         return r
+    if rc != 0 and u.object_bits < 12 and "too many addressed objects" in open(log, errors="replace").read():
+        # retry with the default-size object id space
+        cb = [("12" if (i > 0 and cb[i - 1] == "--object-bits") else x) for i, x in enumerate(cb)]
+        rc, t2 = run(cb, log, timeout=u.timeout, mem_gb=u.mem_gb)
+        r.t_solve += t2
+        if rc == 124:
+            r.status, r.reason = "undecided", "solver timeout after %ds" % u.timeout
+            return r
     results, status, msgs = parse_cbmc_json(log)
     if results is None or rc not in (0, 10):
         r.status, r.reason, r.log_tail = "error", "cbmc rc=%d, no result block" % rc, (msgs if isinstance(msgs, str) else "\n".join(msgs[-8:]))[:3000]
@@ -333,17 +388,35 @@ def run_unit(u: Unit, want_trace=True) -> UnitResult:
         if "ignoring forall" in m or "ignoring exists" in m:
             r.status, r.reason = "undecided", "quantifier ignored by back end"
             return r
+    unreachable = []
     for o in results:
         pid, desc, st = o.get("property", ""), o.get("description", ""), o.get("status", "")
         loc = o.get("sourceLocation", {})
-        ob = Obligation(unit=u.name, pid=pid, desc=desc, status=st, klass=classify(pid, desc),
-                        loc="%s:%s" % (loc.get("file", ""), loc.get("line", "")))
+        key = "%s:%s" % (os.path.basename(loc.get("file", "")), loc.get("line", ""))
+        if key in u.desc_by_line and ("requires clause" in desc or "ensures clause" in desc):
+            desc = u.desc_by_line[key] + " [" + desc + "]"
         if "undefined function should be unreachable" in desc or "no body for" in desc:
             r.status, r.reason = "error", "vacuity guard: body-less callee (%s)" % desc
             return r
+        if desc.startswith("VP-REACH"):
+            r.covers_total += 1
+            if st == "FAILURE":
+                r.covers_sat += 1
+            else:
+                unreachable.append(desc)
+            continue
+        if u.only_re and not re.search(u.only_re, pid + " " + desc):
+            r.ignored += 1
+            continue
+        ob = Obligation(unit=u.name, pid=pid, desc=desc, status=st, klass="property" if u.internal_is_property else classify(pid, desc),
+                        loc="%s:%s" % (loc.get("file", ""), loc.get("line", "")))
         r.obligations.append(ob)
         if st != "SUCCESS":
             r.failed.append(ob)
+    if u.covers > 0 and (r.covers_sat < u.covers or unreachable):
+        r.status, r.reason = "error", "vacuity guard: reachability markers reached %d/%d (need >=%d); unreachable: %s" % (
+            r.covers_sat, r.covers_total, u.covers, unreachable[:4])
+        return r
     if len(r.obligations) < u.min_obligations:
         r.status, r.reason = "error", "vacuity guard: %d obligations < floor %d" % (len(r.obligations), u.min_obligations)
         return r
@@ -370,26 +443,6 @@ def run_unit(u: Unit, want_trace=True) -> UnitResult:
                                        "steps": compact_trace(o["trace"])}
                             break
         return r
-    # 6. reachability guard
-    if u.covers > 0:
-        gcov = build(u, r, d, cover=True)
-        if gcov is None:
-            return r
-        cv = [x for x in cbmc_cmd(u, gcov) if x not in ("--unwinding-assertions",)] + ["--cover", "cover"]
-        logc = os.path.join(d, "cover.json")
-        rc, r.t_cover = run(cv, logc, timeout=u.timeout, mem_gb=u.mem_gb)
-        if rc == 124:
-            r.status, r.reason = "undecided", "cover run timeout"
-            return r
-        res, _, msgs = parse_cbmc_json(logc)
-        goals = res.get("goals", []) if isinstance(res, dict) else []
-        r.covers_total = len(goals)
-        r.covers_sat = sum(1 for g in goals if g.get("status") == "satisfied")
-        unsat = [g.get("description", "") for g in goals if g.get("status") != "satisfied"]
-        if r.covers_sat < u.covers or unsat:
-            r.status, r.reason = "error", "vacuity guard: cover goals satisfied %d/%d (need >=%d); unreachable: %s" % (
-                r.covers_sat, r.covers_total, u.covers, unsat[:4])
-            return r
     return r
 
 
